@@ -3,6 +3,9 @@ pub mod c01;
 pub mod c03;
 pub mod c04;
 pub mod c04a;
+pub mod c07;
+pub mod c07b;
+pub mod c08;
 pub mod c15;
 pub mod c20;
 pub mod kf;
@@ -15,6 +18,8 @@ pub fn run(id: &str, tier: Tier, seed: u64, replay: Option<Value>) -> i32 {
         "C01" => hist::run(&c01::spec(), tier, seed, replay),
         "C03" => hist::run(&c03::spec(), tier, seed, replay),
         "C04" => hist::run(&c04::spec(), tier, seed, replay),
+        "C07" => hist::run(&c07::spec(), tier, seed, replay),
+        "C08" => hist::run(&c08::spec(), tier, seed, replay),
         "C15" => hist::run(&c15::spec(), tier, seed, replay),
         "C20" => c20::run(tier, seed, replay),
         _ => {
